@@ -120,6 +120,9 @@ pub struct Case {
     pub domain: String,
     /// Host header used for the path-style form
     pub path_host: String,
+    /// the request travels in its HTTP/2 form: no Host header, the authority in the request target
+    #[serde(default)]
+    pub h2: bool,
 }
 
 const OPS: &[&str] = &["GetObject", "PutObject", "DeleteObject", "HeadObject", "CopyObject", "ListObjectsV2"];
@@ -149,6 +152,9 @@ fn build(case: &Case, vhost: bool) -> RawRequest {
     if case.op == "PutObject" {
         req.body = b"hello".to_vec();
         req.headers.push(("content-length".into(), b"5".to_vec()));
+    }
+    if case.h2 {
+        crate::oracle::sig::to_http2(&mut req);
     }
     req
 }
@@ -324,7 +330,7 @@ fn check_ip_hosts(rt: &tokio::runtime::Runtime, r: &mut Report) {
             if !is_ip {
                 continue;
             }
-            let case = Case { op: "GetObject".into(), bucket: "bucket-a".into(), key: "k/1".into(), host_cfg: host_cfg.clone(), domain: String::new(), path_host: h.to_owned() };
+            let case = Case { op: "GetObject".into(), bucket: "bucket-a".into(), key: "k/1".into(), host_cfg: host_cfg.clone(), domain: String::new(), path_host: h.to_owned(), h2: false };
             let cfg = SvcCfg { host: host_cfg.clone(), ..Default::default() };
             let req = build(&case, false);
             let cfg_name = match &host_cfg {
@@ -573,7 +579,7 @@ pub fn run(ctx: &RunCtx) -> i32 {
                     }
                     for (hc, dom) in [(HostCfg::None, String::new()), (HostCfg::Single("s3.verif.example".into()), "s3.verif.example".to_owned())] {
                         for op in ["PutObject", "GetObject", "DeleteObject"] {
-                            cases.push(Case { op: op.into(), bucket: b.clone(), key: key.clone(), host_cfg: hc.clone(), domain: dom.clone(), path_host: "127.0.0.1:9000".into() });
+                            cases.push(Case { op: op.into(), bucket: b.clone(), key: key.clone(), host_cfg: hc.clone(), domain: dom.clone(), path_host: "127.0.0.1:9000".into(), h2: false });
                         }
                     }
                 }
@@ -602,6 +608,7 @@ pub fn run(ctx: &RunCtx) -> i32 {
                 host_cfg,
                 domain,
                 path_host: (*g.pick(&["localhost:8014", "127.0.0.1:9000", "unrelated.host", "[::1]:9000"])).to_owned(),
+                h2: g.chance(1, 6),
             };
             // path_host must not be parsed as virtual-hosted when a parser is configured:
             // use an address form, which the statement pins to path style
